@@ -348,6 +348,32 @@ def h_angle(sx, cfg):
     _check_operands_untouched(sx, env)
 
 
+def h_angle_typed(sx, cfg):
+    """integer-typed field and a fractional constant vector (concrete; the cast happens inside numpy): the constant is used as given"""
+    df = lib.load()
+    with sx.native():
+        import math
+
+        n = tuple(cfg["n"])
+        nv = cfg["nvdim"]
+        mesh = df.Mesh(p1=(0.0,) * len(n) if len(n) > 1 else 0.0, p2=tuple(float(k) for k in n) if len(n) > 1 else float(n[0]), n=n if len(n) > 1 else n[0])
+        base = np.array([[1, 2, 2, -3], [3, -1, 2, 1], [-2, 2, 1, 4], [1, 1, -4, 2]])[:, :nv]
+        vals = np.empty((*n, nv), dtype=np.int64)
+        for t, idx in enumerate(np.ndindex(*n)):
+            vals[idx] = base[t % 4]
+        f = df.Field(mesh, nvdim=nv, value=vals, dtype=np.int64)
+        const = [0.5, 0.25, 1.5, -0.75][:nv]
+        for tag, operand in (("tuple", tuple(const) if nv > 1 else const[0]), ("array", np.array(const) if nv > 1 else const[0]), ("field", df.Field(mesh, nvdim=nv, value=tuple(const) if nv > 1 else const[0]))):
+            res = f.angle(operand)
+            ok = True
+            for idx in np.ndindex(*n):
+                x = vals[idx].astype(float)
+                want = math.acos(max(-1.0, min(1.0, float(np.dot(x, const)) / math.sqrt(float(np.dot(x, x)) * float(np.dot(const, const))))))
+                ok = ok and abs(float(res.array[idx + (0,)]) - want) < 1e-12
+            sx.check(f"int-field-angle-with-fractional-{tag}", ok)
+        sx.check("operand-untouched", f.array.dtype == np.int64 and bool(np.array_equal(f.array, vals)))
+
+
 def h_commute(sx, cfg):
     """a*b == b*a and a+b == b+a as fields, including component labels and their mapping to axes"""
     df = lib.load()
@@ -428,6 +454,22 @@ def h_stack(sx, cfg):
     for idx in env.cells:
         sx.check(f"rstack-number{idx}", sx.And(sx.eq(r3.array[idx + (1,)], arr[idx + (0,)]), sx.eq(r3.array[idx + (0,)], a)))
     _check_operands_untouched(sx, env)
+    # history: values and validity are edited in place after the components have been read once; stacking the components
+    # of the field as it is now reproduces it as it is now
+    w = sx.real("w_new")
+    first = (0,) * nd
+    f.array[first + (nv - 1,)] = w
+    now = not sx.decide(sx.truth(valid[first]))
+    f.valid[first] = now
+    comps2 = [getattr(f, nm) for nm in names]
+    res2 = comps2[0]
+    for c in comps2[1:]:
+        res2 = res2 << c
+    for idx in env.cells:
+        for k in range(nv):
+            want = w if (idx == first and k == nv - 1) else arr[idx + (k,)]
+            sx.check(f"restacked-after-in-place-edit{idx}[{k}]", sx.eq(res2.array[idx + (k,)], want))
+        sx.check(f"restacked-valid-after-in-place-edit{idx}", sx.eq(sx.truth(res2.valid[idx]), now if idx == first else sx.truth(valid[idx])))
 
 
 def h_complex(sx, cfg):
@@ -632,6 +674,8 @@ def tasks(tier):
     for n, nv, other in ([((2,), 2, "field"), ((1, 1), 3, "vec"), ((2,), 1, "vec")] if q else
                          [((2,), 2, "field"), ((1, 1), 3, "vec"), ((2,), 1, "vec"), ((2, 1), 3, "field"), ((1,), 4, "field")]):
         t.append(dict(harness="h_angle", cfg=dict(n=list(n), nvdim=nv, other=other), limits=dict(timeout_ms=60000)))
+    for n, nv in (((2, 2), 3), ((3,), 2), ((2, 1, 2), 1)):
+        t.append(dict(harness="h_angle_typed", cfg=dict(n=list(n), nvdim=nv)))
     for n, nv in ([((2,), 1), ((2, 1), 2), ((1, 2, 1), 3)] if q else [((2,), 1), ((2, 2), 2), ((2, 1), 3), ((1, 2, 1), 3), ((2, 1, 1, 1), 4)]):
         for other in ("scalar_field", "field", "num", "vec", "arr"):
             for labels in ("default", "custom"):
